@@ -574,6 +574,7 @@ class io_epoll_context::read_sender {
         if constexpr (is_stop_ever_possible) {
           stopCallback_.construct(
               get_stop_token(receiver_), cancel_callback{*this});
+          stopCallbackConstructed_ = true;
         }
         return;
       }
@@ -615,7 +616,7 @@ class io_epoll_context::read_sender {
 
       UNIFEX_ASSERT(static_cast<completion_base&>(self).enqueued_.load() == 0);
 
-      self.stopCallback_.destruct();
+      self.destroy_stop_callback();
 
       auto oldState = self.state_.fetch_add(
           io_epoll_context::read_sender::operation<Receiver>::io_flag,
@@ -668,6 +669,10 @@ class io_epoll_context::read_sender {
       if (static_cast<completion_base&>(self).enqueued_.load() == 0) {
         // Avoid instantiating set_done() if we're not going to call it.
         if constexpr (is_stop_ever_possible) {
+          // Deregister from the receiver's stop token before completing: the
+          // thread that requested stop may still be inside the callback, and
+          // the receiver may destroy this operation as soon as it completes.
+          self.destroy_stop_callback();
           unifex::set_done(std::move(self.receiver_));
         } else {
           // This should never be called if stop is not possible.
@@ -706,6 +711,17 @@ class io_epoll_context::read_sender {
       void operator()() noexcept { op_.request_stop(); }
     };
 
+    // Only called on the I/O thread. The callback is constructed when the
+    // operation parks in epoll and must be destroyed exactly once, by
+    // whichever of the I/O completion and the done completion runs first.
+    void destroy_stop_callback() noexcept {
+      if (stopCallbackConstructed_) {
+        stopCallbackConstructed_ = false;
+        stopCallback_.destruct();
+      }
+    }
+
+    bool stopCallbackConstructed_ = false;
     io_epoll_context& context_;
     int fd_;
     iovec buffer_[1];
@@ -813,6 +829,7 @@ class io_epoll_context::write_sender {
         if constexpr (is_stop_ever_possible) {
           stopCallback_.construct(
               get_stop_token(receiver_), cancel_callback{*this});
+          stopCallbackConstructed_ = true;
         }
         return;
       }
@@ -854,7 +871,7 @@ class io_epoll_context::write_sender {
 
       UNIFEX_ASSERT(static_cast<completion_base&>(self).enqueued_.load() == 0);
 
-      self.stopCallback_.destruct();
+      self.destroy_stop_callback();
 
       epoll_event event = {};
       (void)epoll_ctl(
@@ -907,6 +924,10 @@ class io_epoll_context::write_sender {
       if (static_cast<completion_base&>(self).enqueued_.load() == 0) {
         // Avoid instantiating set_done() if we're not going to call it.
         if constexpr (is_stop_ever_possible) {
+          // Deregister from the receiver's stop token before completing: the
+          // thread that requested stop may still be inside the callback, and
+          // the receiver may destroy this operation as soon as it completes.
+          self.destroy_stop_callback();
           unifex::set_done(std::move(self.receiver_));
         } else {
           // This should never be called if stop is not possible.
@@ -945,6 +966,17 @@ class io_epoll_context::write_sender {
       void operator()() noexcept { op_.request_stop(); }
     };
 
+    // Only called on the I/O thread. The callback is constructed when the
+    // operation parks in epoll and must be destroyed exactly once, by
+    // whichever of the I/O completion and the done completion runs first.
+    void destroy_stop_callback() noexcept {
+      if (stopCallbackConstructed_) {
+        stopCallbackConstructed_ = false;
+        stopCallback_.destruct();
+      }
+    }
+
+    bool stopCallbackConstructed_ = false;
     io_epoll_context& context_;
     int fd_;
     iovec buffer_[1];
